@@ -1,8 +1,9 @@
 """C07 -- max_advance is a sound promise."""
-from props.common import contract_tasks, TRUSTED_CORE
+from props.common import other_tasks, contract_tasks, TRUSTED_CORE
 PROPERTY = "C07"
 def tasks(tier):
-    return contract_tasks("contracts.scheduler", "C07")
+    return (contract_tasks("contracts.scheduler", "C07")
+            + other_tasks("contracts.closure", "C07", "bounded"))
 TRUSTED_BASE = TRUSTED_CORE
 ASSUMPTIONS = []
 NOT_COVERED = []
